@@ -49,9 +49,26 @@ structure Operand where
 
 /-- payload operators that actually ran -/
 inductive POp
-  | mul
-  | iadd (old : Int)
+  | mul                -- `__mul__` / `__rmul__`
+  | iadd (old : Int)   -- `__iadd__` on an accumulator holding `old`
+  | add                -- `__add__` / `__radd__`
+  | assign             -- `__ilshift__`
+  | imul               -- `__imul__`
   deriving DecidableEq, Repr
+
+/-- how the innermost statement is written (all compute `z + a*b*…`):
+    `z_ref += a * b`,  `z_ref <<= z_ref + a * b` (or `a*b + z_ref` with the product unboxed: `__radd__`),
+    `t = Payload(a.value); t *= b; z_ref += t` -/
+inductive Body
+  | iaddMul
+  | addAssign
+  | imulTmp
+  deriving DecidableEq, Repr
+
+structure KCfg where
+  /-- the output tensor was created with a shape -/
+  declared : Bool
+  body : Body := .iaddMul
 
 inductive KEv
   | call (op : MOp)
@@ -92,15 +109,27 @@ def iaddEv (old : Int) : List KEv :=
   [.pop (.iadd old), .call (.incCount "Compute" "payload_update" 1)] ++
     (if old ≠ 0 then [.call (.incCount "Compute" "payload_add" 1)] else [])
 
-/-- `z_ref += a_val * b_val * …` (`Payload.__mul__` left to right, then `Payload.__iadd__`) -/
-def leafBody (zt : ATree) (ops : List Operand) : ATree × List KEv :=
+def addEv : List KEv := [.pop .add, .call (.incCount "Compute" "payload_add" 1)]
+def assignEv : List KEv := [.pop .assign, .call (.incCount "Compute" "payload_update" 1)]
+def imulEv : List KEv :=
+  [.pop .imul, .call (.incCount "Compute" "payload_mul" 1), .call (.incCount "Compute" "payload_update" 1)]
+
+/-- the operators of the innermost statement, for `n` further factors and an accumulator holding `old` -/
+def bodyEv (b : Body) (n : Nat) (old : Int) : List KEv :=
+  match b with
+  | .iaddMul => (List.range n).flatMap (fun _ => mulEv) ++ iaddEv old
+  | .addAssign => (List.range n).flatMap (fun _ => mulEv) ++ addEv ++ assignEv
+  | .imulTmp => (List.range n).flatMap (fun _ => imulEv) ++ iaddEv old
+
+/-- the innermost statement: `z_ref += a_val * b_val * …` in one of its spellings -/
+def leafBody (b : Body) (zt : ATree) (ops : List Operand) : ATree × List KEv :=
   match zt with
   | ⟨0, cur⟩ =>
     match ops.filterMap (fun o => match o.t with | ⟨0, v⟩ => some (show Int from v) | _ => none) with
     | [] => (zt, [])
     | v0 :: vs =>
       let old : Int := cur
-      (⟨0, (old + vs.foldl (· * ·) v0 : Int)⟩, vs.flatMap (fun _ => mulEv) ++ iaddEv old)
+      (⟨0, (old + vs.foldl (· * ·) v0 : Int)⟩, bodyEv b vs.length old)
   | _ => (zt, [])
 
 /-- what `iterRange(tick=True)` does around one element -/
@@ -128,8 +157,8 @@ def uLeafLoop (v : String) (parts : List Operand) : Option (Nat × ATree) :=
 def usePos (lazy : Bool) (idx : Nat) (ch : List (Nat × ATree)) : Int :=
   if lazy then idx else match ch with | c :: _ => c.1 | [] => idx
 
-def runK (declared : Bool) : List String → List String → ATree → List Operand → ATree × List KEv
-  | [], _, zt, ops => leafBody zt ops
+def runK (cfg : KCfg) : List String → List String → ATree → List Operand → ATree × List KEv
+  | [], _, zt, ops => leafBody cfg.body zt ops
   | v :: rest, zr, zt, ops =>
     let parts := ops.filter (fun o => o.ranks.head? == some v)
     let src := interAll (parts.map (fun o => presentA o.t))
@@ -137,13 +166,13 @@ def runK (declared : Bool) : List String → List String → ATree → List Oper
       match zt with
       | ⟨d + 1, zf⟩ =>
         let sub := fun (cur : Tree Int Int d) (ch : List (Nat × ATree)) =>
-          runK declared rest zr.tail ⟨d, cur⟩ (descend v ops ch)
+          runK cfg rest zr.tail ⟨d, cur⟩ (descend v ops ch)
         let r := popLoop (defaultTree 0 d) (rmOf 0 d)
           (fun (_ : Int) (cur : Tree Int Int d) (ch : List (Nat × ATree)) => castT d (sub cur ch).1 cur)
           (show List (Int × Tree Int Int d) from zf) 0 src
         let asrt : List KEv :=
           match src.head?, (show List (Int × Tree Int Int d) from zf).getLast? with
-          | some b, some e => [.assertShape v declared (decide (b.1 < e.1))]
+          | some b, some e => [.assertShape v cfg.declared (decide (b.1 < e.1))]
           | _, _ => []
         let evs := r.2.zipIdx.flatMap (fun y => iterEv v y.1.1 y.2 (sub y.1.2.1 y.1.2.2).2)
         (⟨d + 1, r.1⟩, [.call (.registerRank v)] ++ asrt ++ evs ++ [.call (.endIter v)])
@@ -153,7 +182,7 @@ def runK (declared : Bool) : List String → List String → ATree → List Oper
       let u := uLeafLoop v parts
       let src' := match u with | some (n, t) => denseSrc n t | none => src
       let r := src'.zipIdx.foldl (fun (acc : ATree × List KEv) y =>
-        let s := runK declared rest zr acc.1 (descend v ops y.1.2)
+        let s := runK cfg rest zr acc.1 (descend v ops y.1.2)
         (s.1, acc.2 ++ (if u.isSome then iterEvU v s.2 else iterEv v y.1.1 (usePos lazy y.2 y.1.2) s.2))) (zt, [])
       (r.1, [.call (.registerRank v)] ++ r.2 ++ [.call (.endIter v)])
 
@@ -176,13 +205,16 @@ structure Kernel where
   out : List String
   /-- the output tensor was created with a shape -/
   declared : Bool
+  body : Body := .iaddMul
+
+def Kernel.cfg (k : Kernel) : KCfg := { declared := k.declared, body := k.body }
 
 /-- collection off -/
-def runPlain (k : Kernel) (z : ATree) (ops : List Operand) : ATree := (runK k.declared k.loops k.out z ops).1
+def runPlain (k : Kernel) (z : ATree) (ops : List Operand) : ATree := (runK k.cfg k.loops k.out z ops).1
 
 /-- collection on, inside a session whose state is `s`: `none` = the kernel aborted -/
 def runCollect (k : Kernel) (z : ATree) (ops : List Operand) (s : MState) : Option (ATree × MState) :=
-  let r := runK k.declared k.loops k.out z ops
+  let r := runK k.cfg k.loops k.out z ops
   if assertsOk (fun v => dhas s.traces (v, "populate_write_0")) r.2 then
     (runOps (callsOf r.2) s).map (fun x => (r.1, x.2)) else none
 
@@ -190,21 +222,23 @@ def runCollect (k : Kernel) (z : ATree) (ops : List Operand) (s : MState) : Opti
     the kernel, `endCollect()` — from whatever state `s₀` earlier sessions left behind -/
 def kernelSession (k : Kernel) (z : ATree) (ops : List Operand) (p : String) (keys : List TKey) (s₀ : MState) :
     Option (ATree × MState) :=
-  let r := runK k.declared k.loops k.out z ops
+  let r := runK k.cfg k.loops k.out z ops
   if assertsOk (wtrOf keys) r.2 then
     (runOps (openOps p keys ++ callsOf r.2 ++ [.endCollect]) s₀).map (fun x => (r.1, x.2))
   else none
 
 /-- the events of the kernel (calls, ghost marks) -/
-def kernelEvents (k : Kernel) (z : ATree) (ops : List Operand) : List KEv := (runK k.declared k.loops k.out z ops).2
+def kernelEvents (k : Kernel) (z : ATree) (ops : List Operand) : List KEv := (runK k.cfg k.loops k.out z ops).2
 
 /-! ### what was actually executed (ghost counts) -/
 
-def nMul (evs : List KEv) : Nat := evs.countP (fun e => e == .pop .mul)
-def nUpd (evs : List KEv) : Nat := evs.countP (fun e => match e with | .pop (.iadd _) => true | _ => false)
-/-- an `__iadd__` on an accumulator that already holds something is an addition; on an empty (0) one it only writes -/
+def nMul (evs : List KEv) : Nat := evs.countP (fun e => e == .pop .mul || e == .pop .imul)
+def nUpd (evs : List KEv) : Nat :=
+  evs.countP (fun e => match e with | .pop (.iadd _) => true | .pop .assign => true | .pop .imul => true | _ => false)
+/-- an `__add__`/`__radd__` is an addition; an `__iadd__` on an accumulator that already holds something is one
+    too, on an empty (0) one it only writes -/
 def nAdd (evs : List KEv) : Nat :=
-  evs.countP (fun e => match e with | .pop (.iadd old) => old != 0 | _ => false)
+  evs.countP (fun e => match e with | .pop (.iadd old) => old != 0 | .pop .add => true | _ => false)
 def nBody (r : String) (evs : List KEv) : Nat := evs.countP (fun e => e == .body r)
 
 /-! ### the static shape of a kernel's call sequence -/
